@@ -40,7 +40,7 @@ pub fn def() -> CheckDef {
                 ("pos_fixed_point_top", 30 * m),
                 ("pos_fixed_point_under_operator", 30 * m),
                 ("pos_fixed_point_in_scope_1", 30 * m),
-                ("pos_fixed_point_in_scope_2", 30 * m),
+                ("pos_fixed_point_in_scope_2", 20 * m),
                 ("pos_fixed_point_in_restricted_scope", 30 * m),
                 ("several_patterns", 30 * m),
                 ("near_miss_formulae", 100 * m),
